@@ -131,7 +131,7 @@ Section Delta.
     destruct (ts_extract _ _ (t_text s)) as [raw|]; [|reflexivity]. cbv zeta. rewrite Hmem.
     destruct (nmem (norm raw) (allowed c1)); [rewrite orb_true_r; reflexivity|]. rewrite orb_false_r.
     destruct t; [rewrite orb_true_r; reflexivity|]. rewrite !orb_false_r.
-    destruct (ts_is_enum (t_anc s) || ts_is_const_def (t_anc s)); [destruct (num_eqb _ a); reflexivity|].
+    destruct (ts_is_enum (t_anc s) || ts_is_const_def q (t_anc s)); [destruct (num_eqb _ a); reflexivity|].
     cbn [filter]. unfold keep. cbn [snd rval_names]. destruct (num_eqb (norm raw) a); reflexivity.
   Qed.
 
